@@ -90,22 +90,32 @@ impl fmt::Debug for Response {
 }
 
 /// A cache for field names used in responses.
+///
+/// It also keeps the state of a partially received response between two [`ResponseBuilder`]s, so
+/// that a receive operation which is interrupted (e.g. a dropped `AsyncConnection::receive` future)
+/// does not lose the part of the response it already consumed.
 #[derive(Clone, Debug)]
-pub(crate) struct ResponseFieldCache(HashSet<Arc<str>, ahash::RandomState>);
+pub(crate) struct ResponseFieldCache {
+    names: HashSet<Arc<str>, ahash::RandomState>,
+    suspended: ResponseState,
+}
 
 impl ResponseFieldCache {
     /// Returns a new, empty cache.
     pub(crate) fn new() -> ResponseFieldCache {
-        ResponseFieldCache(HashSet::default())
+        ResponseFieldCache {
+            names: HashSet::default(),
+            suspended: ResponseState::Initial,
+        }
     }
 
     /// Insert a field name into the cache or retrieve a reference to an already existing entry.
     pub(crate) fn insert(&mut self, key: &str) -> Arc<str> {
-        if let Some(k) = self.0.get(key) {
+        if let Some(k) = self.names.get(key) {
             Arc::clone(k)
         } else {
             let k = Arc::from(key);
-            self.0.insert(Arc::clone(&k));
+            self.names.insert(Arc::clone(&k));
             k
         }
     }
@@ -130,11 +140,10 @@ enum ResponseState {
 }
 
 impl<'a> ResponseBuilder<'a> {
+    /// Returns a builder which continues the response the previous builder left unfinished, if any.
     pub(crate) fn new(field_cache: &'a mut ResponseFieldCache) -> Self {
-        Self {
-            field_cache,
-            state: ResponseState::Initial,
-        }
+        let state = mem::replace(&mut field_cache.suspended, ResponseState::Initial);
+        Self { field_cache, state }
     }
 
     pub(crate) fn parse(
@@ -252,6 +261,13 @@ impl<'a> ResponseBuilder<'a> {
                 error: Some(error),
             },
         }
+    }
+}
+
+impl Drop for ResponseBuilder<'_> {
+    fn drop(&mut self) {
+        // Keep what has been consumed of an unfinished response for the next builder
+        self.field_cache.suspended = mem::replace(&mut self.state, ResponseState::Initial);
     }
 }
 
